@@ -16,7 +16,7 @@ from ..model import AnalysisError, Func, parse_shape_text
 from ..terms import T, walk_terms
 from ..absint import AV, TOP, cav, is_bot
 from ..walk import (call_parts, call_arg, is_call_to, const_val, NOVAL, unwrap_gamma, mult_factors, call_paths, callee_func,
-                    callee_name, ctx_tree, norm_stmt, strip_views, guard_means_given, newaxis_insertions, axis_reordering)
+                    callee_name, ctx_tree, norm_stmt, strip_views, guard_means_given, newaxis_insertions, axis_reordering, loop_role)
 from ..nptable import einsum_parse
 
 D = 'pb_bss.distribution.'
@@ -134,6 +134,9 @@ def plain_log_pdf(t):
         return True
     if t.op == 'sub':
         return plain_log_pdf(t.args[0])
+    r = loop_role(t)
+    if r is not None and r[0] == 'slice':
+        return plain_log_pdf(r[2])          # the element of `for x in log_pdf` / zip(.., log_pdf, ..) is log_pdf[f]
     if t.op == 'binop' and t.args[0] == 'Add':
         return plain_log_pdf(t.args[1]) and plain_log_pdf(t.args[2])
     return False
@@ -486,10 +489,12 @@ def check_weights_and_initialisers(run, A):
             if size is not None:
                 for alt in unwrap_gamma(size):
                     alt = strip_views(alt)
-                    if alt.op == 'tuple' and len(alt.args[0]) >= 2:
+                    while is_call_to(alt, 'builtin.tuple', 'builtin.list') and len(call_parts(alt)[1]) == 1:
+                        alt = strip_views(call_parts(alt)[1][0])          # tuple(shape_list)
+                    if alt.op in ('tuple', 'list') and len(alt.args[0]) >= 2:
                         k = alt.args[0][-2]
                         size_ok = any(x.op == 'param' and x.args[0] == 'num_classes' for x in walk_terms(k))
-                    elif alt.op == 'binop' and alt.args[0] == 'Add' and strip_views(alt.args[2]).op == 'tuple' and len(strip_views(alt.args[2]).args[0]) >= 2:
+                    elif alt.op == 'binop' and alt.args[0] == 'Add' and strip_views(alt.args[2]).op in ('tuple', 'list') and len(strip_views(alt.args[2]).args[0]) >= 2:
                         # leading shape + (num_classes, N)
                         k = strip_views(alt.args[2]).args[0][-2]
                         size_ok = any(x.op == 'param' and x.args[0] == 'num_classes' for x in walk_terms(k))
@@ -504,6 +509,12 @@ def check_weights_and_initialisers(run, A):
                       construct=f'R-AXIS::{q}::random-init')
         if found == 0:
             raise AnalysisError(f'{q}: normalisation of the random-uniform initialisation not found')
+        # every draw is normalised, not only one of them (a function with a permutation-free and a per-frequency draw has two)
+        covered = {strip_views(dv.args[1]).id for dv in _division_terms(gg) if is_call_to(strip_views(dv.args[1]), 'numpy.random.uniform')}
+        for e_ in gg.events:
+            if e_.kind == 'call' and is_call_to(e_.term, 'numpy.random.uniform') and e_.term.id not in covered:
+                run.violation('R-AXIS', f'{q.split("::")[1]}: random start normalised over the class axis', f.loc(e_.term.node),
+                              'a uniform draw is used as an affiliation without being divided by its sum over the class axis', construct=f'R-AXIS::{q}::random-init-bare')
     run.floor('random-uniform initialisations', n_init, 9)
     # flag
     f = prog.func('pb_bss.initializer.deterministic::flag')
